@@ -457,6 +457,11 @@ inductive Zip {α β : Type} (R : α → β → Prop) : List α → List β → 
   | nil : Zip R [] []
   | cons {a b l m} : R a b → Zip R l m → Zip R (a :: l) (b :: m)
 
+theorem Zip.refl {α : Type} {R : α → α → Prop} (l : List α) (h : ∀ a ∈ l, R a a) : Zip R l l := by
+  induction l with
+  | nil => exact .nil
+  | cons a rest ih => exact .cons (h a (by simp)) (ih (fun b hb => h b (by simp [hb])))
+
 theorem params_roundtrip (C : DecCodec) (emb : Str → R Atom) (sig : List Row) (op : Str)
     (l seen : List (Str × PVal))
     (h : Zip (fun p q => ParamRT C emb (kindOf sig op q.1) p q) l seen) :
